@@ -177,7 +177,7 @@ class Report:
                                replay={'kind': 'obligation', 'contract': f['key'], 'native_replay': rp,
                                        'related_bounded_witness': jsonable(bounded[0].witness) if bounded else None},
                                found_input=bool(rp and rp.get('confirmed')) or bool(bounded),
-                               solver_output=f.get('reason') or 'sat', tier='P')
+                               solver_output=f.get('reason') or 'sat', tier=f.get('tier', 'P'))
             elif changed:
                 # discharged for a different function text in the committed baseline, not dischargeable now
                 self.violation(f['name'], 'deductive', None, 'obligation discharged (as in proof_baseline.json for '
@@ -185,7 +185,7 @@ class Report:
                                'undischarged for function text %s: %s' % (f['hash'], f.get('reason') or 'unknown'),
                                replay={'kind': 'obligation', 'contract': f['key'],
                                        'related_bounded_witness': jsonable(bounded[0].witness) if bounded else None},
-                               found_input=bool(bounded), solver_output=f.get('reason') or 'unknown/timeout', tier='P')
+                               found_input=bool(bounded), solver_output=f.get('reason') or 'unknown/timeout', tier=f.get('tier', 'P'))
             else:
                 # unchanged function text (or never proved): solver instability / engine limit, not a violation
                 self.undecided.append((f['name'], f.get('reason') or 'unknown'))
